@@ -12,6 +12,7 @@ def allOps : List (String × (V → R V)) :=
   ++ onPolicyOps
   ++ offPolicyOps
   ++ tdOps
+  ++ lossOps
 
 def dispatch (op : String) (a : V) : R V :=
   match allOps.find? (·.1 == op) with
